@@ -376,6 +376,107 @@ pub fn run(tier: Tier) -> i32 {
             rep.violation(&key, || format!("{} [source file {}, verbose={}, source path kind {}, sentinels={}]", what, fname, sp.verbose, sp.path_kind, sp.sentinels), || detail.clone());
         }
     });
+    // an output location that accepts the beginning of a file and then no more (a quota, a full
+    // disk, a file size limit): the tool runs under RLIMIT_FSIZE = L bytes with SIGXFSZ ignored, so
+    // a write beyond L is cut short or refused with EFBIG. Whatever L is: exit status 0 means
+    // every needed file decodes to exactly the library's image; otherwise the failure is reported.
+    let n_limited = AtomicU64::new(0);
+    let n_limited_fail = AtomicU64::new(0);
+    {
+        let big_sources: [(&str, String); 3] = [
+            ("large-code", "ldi r16, 0x5a\n".repeat(1500)),
+            ("large-code-and-eeprom", format!("{}.eseg\n{}", "ldi r17, 0x3c\n".repeat(700), ".db 1, 2, 3, 4, 5, 6, 7, 8\n".repeat(60))),
+            ("small-code-large-eeprom", format!("nop\n.eseg\n{}", ".dw 0x1234, 0x5678\n".repeat(120))),
+        ];
+        let limits: Vec<u64> = if tier.thorough() { vec![0, 1, 11, 43, 44, 45, 100, 511, 512, 513, 1000, 1024, 2000, 4095, 4096, 4097, 8192, 8193, 12000, 1 << 20] } else { vec![0, 1, 44, 512, 1000, 4096, 8192, 1 << 20] };
+        let mut lw: Vec<(usize, u64, bool)> = vec![];
+        for si in 0..big_sources.len() {
+            for l in limits.iter() {
+                for opts in [false, true] {
+                    lw.push((si, *l, opts));
+                }
+            }
+        }
+        lw.par_iter().enumerate().for_each(|(id, (si, limit, opts))| {
+            let (sname, stext) = &big_sources[*si];
+            let dir = scratch.path.join(format!("limited{}", id));
+            let _ = std::fs::create_dir_all(dir.join("out"));
+            let src_abs = dir.join("prog.asm");
+            std::fs::write(&src_abs, stext).unwrap_or_else(|e| machinery_fail(&format!("cannot write {:?}: {}", src_abs, e)));
+            let reference = sut::build_file(src_abs.clone(), {
+                let mut s = std::collections::BTreeSet::new();
+                s.insert(avra_standard_includes());
+                s
+            });
+            let b = match &reference {
+                Outcome::Ok(b) => b.clone(),
+                other => machinery_fail(&format!("C18: the library does not build the {} source: {}", sname, other.brief())),
+            };
+            let (code_path, eep_path) = if *opts { (dir.join("out/c.hex"), dir.join("out/e.hex")) } else { (dir.join("prog.hex"), dir.join("prog.eep.hex")) };
+            let mut cmd = Command::new(&bin);
+            cmd.current_dir(&dir).env("RUST_BACKTRACE", "0").arg("-s").arg("prog.asm");
+            if *opts {
+                cmd.arg("-o").arg("out/c.hex").arg("-e").arg("out/e.hex");
+            }
+            cmd.stdin(std::process::Stdio::null());
+            let l = *limit;
+            unsafe {
+                use std::os::unix::process::CommandExt;
+                cmd.pre_exec(move || {
+                    let mem = libc::rlimit { rlim_cur: 2 << 30, rlim_max: 2 << 30 };
+                    libc::setrlimit(libc::RLIMIT_AS, &mem);
+                    let cpu = libc::rlimit { rlim_cur: 20, rlim_max: 21 };
+                    libc::setrlimit(libc::RLIMIT_CPU, &cpu);
+                    // (an ignored signal stays ignored across exec)
+                    libc::signal(libc::SIGXFSZ, libc::SIG_IGN);
+                    let fs = libc::rlimit { rlim_cur: l, rlim_max: l };
+                    libc::setrlimit(libc::RLIMIT_FSIZE, &fs);
+                    Ok(())
+                });
+            }
+            let out = match cmd.output() {
+                Ok(o) => o,
+                Err(e) => machinery_fail(&format!("cannot run {:?}: {}", bin, e)),
+            };
+            evals.fetch_add(1, Ordering::Relaxed);
+            n_limited.fetch_add(1, Ordering::Relaxed);
+            let status = out.status.code();
+            let diag = !out.stdout.is_empty() || !out.stderr.is_empty();
+            let mut problems: Vec<(&'static str, String)> = vec![];
+            if status == Some(0) {
+                for (which, path, image) in [("code", &code_path, &b.code), ("eeprom", &eep_path, &b.eeprom)] {
+                    if image.is_empty() {
+                        continue;
+                    }
+                    match std::fs::read(path) {
+                        Err(_) => problems.push(("missing-output-file-under-a-size-limit", format!("exit status 0 but no {} file", which))),
+                        Ok(c) => match ihex::decode(&c) {
+                            Err(e) => problems.push(("truncated-output-file-with-exit-status-zero", format!("exit status 0, but the {} file ({} bytes of text) is not a complete Intel HEX file: {}", which, c.len(), e))),
+                            Ok(d) => {
+                                if let Some(e) = ihex::compare(&d, image) {
+                                    problems.push(("wrong-output-file-under-a-size-limit", format!("exit status 0, but the {} file does not decode to the library's image: {}", which, e)));
+                                }
+                            }
+                        },
+                    }
+                }
+            } else {
+                n_limited_fail.fetch_add(1, Ordering::Relaxed);
+                if status.is_none() {
+                    problems.push(("killed-by-signal", format!("the tool died from a signal under a file size limit of {} bytes", limit)));
+                } else if !diag {
+                    problems.push(("no-diagnostic", "an output file cannot be written completely and nothing is reported".into()));
+                }
+            }
+            for (kind, what) in problems {
+                *kinds.lock().unwrap().entry(kind.to_string()).or_insert(0) += 1;
+                let detail = json!({"kind": "cli", "source_kind": sname, "argv": if *opts { "avra-rs -s prog.asm -o out/c.hex -e out/e.hex" } else { "avra-rs -s prog.asm" }, "environment": format!("RLIMIT_FSIZE = {} bytes, SIGXFSZ ignored (sh: trap '' XFSZ; ulimit -f ...)", limit), "source_head": stext.chars().take(120).collect::<String>(), "source_lines": stext.lines().count(), "exit_status": status, "stdout": String::from_utf8_lossy(&out.stdout), "stderr": String::from_utf8_lossy(&out.stderr)});
+                rep.violation(&format!("C18/{}/source={}/options={}", kind, sname, opts), || format!("{} [file size limit {} bytes]", what, limit), || detail.clone());
+            }
+            let _ = std::fs::remove_dir_all(&dir);
+        });
+    }
+    rep.guard(n_limited_fail.load(Ordering::Relaxed) > 10 && n_limited.load(Ordering::Relaxed) > n_limited_fail.load(Ordering::Relaxed), "the size-limited runs need both outcomes (limit hit / limit not hit)");
     rep.guard(n_ok.load(Ordering::Relaxed) > 100 && n_fail.load(Ordering::Relaxed) > 100, "need both succeeding and failing runs");
     rep.sample(|| json!({"argv": "avra-rs -s prog.asm -o missing_dir_code/x.hex", "source": SOURCES[0].1, "expected": "exit status != 0 and a diagnostic (the output cannot be written)"}));
     rep.sample(|| json!({"argv": "avra-rs -s nested/deeper/prog.asm -v", "source": SOURCES[1].1, "expected": "exit 0; nested/deeper/prog.hex and nested/deeper/prog.eep.hex decode to the library's images"}));
@@ -386,8 +487,10 @@ pub fn run(tier: Tier) -> i32 {
     let coverage = cov(json!({
         "evaluations": evals.load(Ordering::Relaxed),
         "distinct_nontrivial": specs.len(),
-        "rule": "5 source file names (plain, two dots, no extension, blank in the name, upper case; names other than the plain one wherever a default output name is in use) x 11 sources (code only, code+EEPROM, EEPROM only, empty, comments only, with messages, syntax error, range error, .error, missing include, nonexistent source) x code output location in {default, default path occupied by a directory, -o writable, -o missing directory, -o existing directory, -o parent is a file, -o /dev/full} x the same seven for the EEPROM output x -v x source path relative/absolute/nested x pre-existing sentinel files (quick: the full product only where at most one location deviates); each run of the real binary in a fresh directory, compared with build_file in-process. distinct_nontrivial = distinct run specifications",
+        "rule": "5 source file names (plain, two dots, no extension, blank in the name, upper case; names other than the plain one wherever a default output name is in use) x 11 sources (code only, code+EEPROM, EEPROM only, empty, comments only, with messages, syntax error, range error, .error, missing include, nonexistent source) x code output location in {default, default path occupied by a directory, -o writable, -o missing directory, -o existing directory, -o parent is a file, -o /dev/full} x the same seven for the EEPROM output x -v x source path relative/absolute/nested x pre-existing sentinel files (quick: the full product only where at most one location deviates); each run of the real binary in a fresh directory, compared with build_file in-process; plus 3 large sources x file size limits (RLIMIT_FSIZE with SIGXFSZ ignored: the location accepts the beginning of a file only) x default names / -o -e. distinct_nontrivial = distinct run specifications",
         "exhaustive": tier.thorough(),
+        "runs_under_a_file_size_limit": n_limited.load(Ordering::Relaxed),
+        "runs_under_a_file_size_limit_that_failed_visibly": n_limited_fail.load(Ordering::Relaxed),
         "runs_expected_to_succeed": n_ok.load(Ordering::Relaxed),
         "runs_expected_to_fail": n_fail.load(Ordering::Relaxed),
         "violation_kinds": *kinds.lock().unwrap(),
